@@ -246,7 +246,7 @@ PROPS["C11"] = {
 
 PROPS["C16"] = {
     "level": "other",
-    "technique": "Verus contracts on the extracted TieredCache::get_or_fetch (representation invariant: whatever L1 / L2 may hold under a key is the backing store's bytes of that key; a successful read returns exactly those bytes; inserts only under the requested key), TieredCache::invalidate and CachedObjectStore::get_opts / delete / rename (ranged and conditional reads bypass the cache, delete and rename invalidate)",
+    "technique": "Verus contract on the extracted CachedObjectStore::get (the cache is asked under the key of `location`, the miss path fetches `location` itself, the bytes and the range handed back are the whole object); Verus contracts on the extracted TieredCache::get_or_fetch (representation invariant: whatever L1 / L2 may hold under a key is the backing store's bytes of that key; a successful read returns exactly those bytes; inserts only under the requested key), TieredCache::invalidate and CachedObjectStore::get_opts / delete / rename (ranged and conditional reads bypass the cache, delete and rename invalidate)",
     "verus": ["c16_cache.rs.in"],
     "explanation": "Transparency is proved for every sequence of operations (invariant preserved by each operation) under the ASSUMED moka / foyer contract that get(k) returns only a value previously inserted under k (eviction = absence at any time). CachedObjectStore::get itself (closure / stream plumbing around get_or_fetch) enters through an assumed contract; concurrent readers of one key and eviction timing inside moka / foyer are not covered; other GetOptions fields (if_modified_since, version, head) are not examined by the code and not by this check.",
     "assumptions": [
